@@ -90,6 +90,7 @@ class World:
         self.apps: dict[str, Any] = {}
         self.tlog: list[dict] = []  # transition log
         self.refused: list[dict] = []  # refused status requests
+        self.hist_calls: list[dict] = []  # add_history(ies) calls: invocation, record time, event seq at return
         self.body: list[dict] = []  # body enter/exit events
         self.events: list[tuple] = []  # check-specific observations (global seq stamped)
         self.conf = dict(conf or {})
@@ -162,6 +163,25 @@ class World:
 
         orch._atomic_status_transition = atomic
         orch._register_new_invocations = register
+        # when did the caller hand each change over to the history? (C10: the stored order -- the
+        # entries' own timestamps, which get_history sorts by -- must respect happens-before)
+        sb = app.state_backend
+        orig_add_history = sb.add_history
+        orig_add_histories = sb.add_histories
+
+        def add_history(invocation_id: Any, status_record: Any, runner_context: Any) -> Any:
+            r = orig_add_history(invocation_id, status_record, runner_context)
+            world.hist_calls.append({"inv": str(invocation_id), "ts": status_record.timestamp.timestamp(), "ret": len(world.sim.log)})
+            return r
+
+        def add_histories(invocations: Any, status_record: Any, runner_context: Any) -> Any:
+            r = orig_add_histories(invocations, status_record, runner_context)
+            for inv in invocations:
+                world.hist_calls.append({"inv": str(inv.invocation_id), "ts": status_record.timestamp.timestamp(), "ret": len(world.sim.log)})
+            return r
+
+        sb.add_history = add_history
+        sb.add_histories = add_histories
 
     def _log_transition(self, inv_id: str, rec: Any, requester: Any, how: str) -> None:
         sim = self.sim
